@@ -40,6 +40,7 @@ VARIANTS = {
     "tsan":   dict(cflags=TSAN),
     "pfault": dict(cflags=PLAIN, redefine=[("idn2_to_ascii_8z", "vfault_to_ascii_8z")]),
     "fault":  dict(cflags=SAN, redefine=[("idn2_to_ascii_8z", "vfault_to_ascii_8z")]),
+    "xfault": dict(cflags=SAN, extra_cflags="-DEAV_EXTRA", redefine=[("idn2_to_ascii_8z", "vfault_to_ascii_8z")]),
     "ffuzz":  dict(cflags=FUZZ, redefine=[("idn2_to_ascii_8z", "vfault_to_ascii_8z")]),
     "b_idn2": dict(cflags=SAN, makevars={"FORCE_IDN": "idn2"}),
     "b_idn":  dict(cflags=SAN, makevars={"FORCE_IDN": "idn",
